@@ -8,6 +8,8 @@ invalid combination (R16.3); display options (mute, error-code filter, cap)
 are read only on display paths and never gate the counting of an error (R16.4);
 total_errors is incremented exactly where a message is stored (R16.5).
 Not decided: -w string matching, -e counts (runtime strings)."""
+import re
+
 from ..mir import callee_of, origin_calls, show_origin
 from ..thir import Evaluator, Sym, Cond, ckey, Unsupported
 from ..facts import where
@@ -297,6 +299,24 @@ def run(ctx, rep):
                 lits = tuple(sorted(x["str"] for a in n["args"] for _, x in tbx.walk(a) if x["k"] == "Lit" and "str" in x))
                 if lits:
                     out_.add((nm, lits))
+            elif n["k"] == "Match" and mentions_ext(n["scrut"]):
+                # `match ext.to_str() { Some("json") => …, Some("toml") => …, _ => … }`: one exact comparison per literal arm
+                def strs(pat, acc):
+                    if not pat:
+                        return acc
+                    if pat["k"] == "Const" and pat.get("ty") == "str":
+                        m_ = re.findall(r"(\d+)_u8", pat.get("dbg") or "")
+                        if m_:
+                            acc.append(bytes(int(x_) for x_ in m_).decode("utf-8", "replace"))
+                    for s_ in pat.get("subs", []):
+                        strs(s_["p"], acc)
+                    strs(pat.get("sub"), acc)
+                    for p_ in pat.get("pats", []):
+                        strs(p_, acc)
+                    return acc
+                for a_ in n["arms"]:
+                    for lit in strs(tbx.arms[a_]["pat"], []):
+                        out_.add(("exact-compare", (lit,)))
         return out_
     ev_a = None
     if va in f.fns:
